@@ -204,6 +204,21 @@ def catalogue():
     add("metric.Levenshtein", lambda: [seqs(), seqs2()], lambda a: [Levenshtein().calc_cdist_matrix(a[0], a[1]), Levenshtein().calc_pdist_vector(a[0])])
     add("metric.WeightedLevenshtein", lambda: [seqs()], lambda a: WeightedLevenshtein(2, 1, 3).calc_pdist_vector(a[0]))
     add("metric.CdrLevenshtein", lambda: [tab()], lambda a: tm.CdrLevenshtein(cdr3_weight=2).calc_cdist_matrix(a[0], a[0]))
+    # objects that LIVE across calls (built once per process, before any other call): a metric with non-default weights, a string
+    # metric, a deletion-variant database. What other calls construct or do in between must not change what these objects compute.
+    keep = {"cdr": tm.CdrLevenshtein(alpha_weight=3, cdr1_weight=2, insertion_weight=2), "a3": tm.AlphaCdr3Levenshtein(substitution_weight=4),
+            "wl": WeightedLevenshtein(1, 3, 2), "db": nn.SymdelDB(seqs(), 2), "ldb": nn.LookupDB(seqs())}
+    add("metric.persistent-CdrLevenshtein", lambda: [tab()], lambda a: [keep["cdr"].calc_cdist_matrix(a[0], a[0]), keep["cdr"].calc_pdist_vector(a[0])])
+    add("metric.persistent-AlphaCdr3", lambda: [tab()], lambda a: keep["a3"].calc_pdist_vector(a[0]))
+    add("metric.persistent-WeightedLevenshtein", lambda: [seqs(), seqs2()], lambda a: keep["wl"].calc_cdist_matrix(a[0], a[1]))
+    add("metric.other-weights", lambda: [tab()], lambda a: tm.CdrLevenshtein(beta_weight=5, cdr2_weight=3).calc_cdist_matrix(a[0], a[0]))
+    add("nn.persistentDB.lookup-plain", lambda: [seqs2()], lambda a: sorted(keep["db"].lookup(a[0])))
+    add("nn.persistentDB.lookup-custom0", lambda: [seqs2()], lambda a: sorted(keep["db"].lookup(a[0], custom_distance=levd, max_custom_distance=0)))
+    add("nn.persistentDB.lookup-custom", lambda: [seqs2()], lambda a: sorted(keep["db"].lookup(a[0], custom_distance=lambda x, y: levd(x, y) / 2)))
+    add("nn.persistentDB.lookup-hamming", lambda: [seqs2()], lambda a: sorted(keep["db"].lookup(a[0], custom_distance="hamming")))
+    add("nn.persistentDB.lookup-raises", lambda: [seqs2()], lambda a: sorted(keep["db"].lookup(a[0], custom_distance=lambda x, y: 1 / 0)))
+    add("nn.persistentLookupDB.lookup-k2", lambda: [seqs2()], lambda a: sorted(keep["ldb"].lookup(a[0], max_edits=2)))
+    add("nn.persistentLookupDB.lookup-k1", lambda: [seqs2()], lambda a: sorted(keep["ldb"].lookup(a[0], max_edits=1, custom_distance="hamming")))
     add("metric.BetaCdr3Levenshtein-invalid", lambda: [seqs()], lambda a: tm.BetaCdr3Levenshtein().calc_pdist_vector(a[0]))
     # clustering
     add("clustering.graph_clustering", lambda: [[(0, 2, 1), (2, 0, 1), (0, 3, 0), (3, 0, 0)], seqs()], lambda a: clustering.graph_clustering(a[0], a[1]))
